@@ -109,7 +109,7 @@ static int pick_services(struct vf_rng *r, struct cfg *c)
 			int k = (int)vf_below(r, (unsigned)n);
 			c->set[c->nset++] = ttx[k];
 			nttx = 1;
-			if (vf_chance(r, 1, 24)) {
+			if (vf_chance(r, 1, 10)) {
 				int k2 = (k + 1 + (int)vf_below(r, (unsigned)(n - 1))) % n;
 				c->set[c->nset++] = ttx[k2];
 				c->mixed_ttx = 1;
@@ -547,10 +547,19 @@ static void judge(const struct cfg *c, const char *api, int frame, unsigned requ
 		fail(c, api, frame, "model:C04:count-out-of-range", "returned %d records, array holds %d", n, max_lines);
 		return;
 	}
-	/* ids: never a service that was not requested */
+	/* ids: never a service that was not requested - and the id names ONE service (the bits of one row of the
+	 * service table, e.g. both Teletext B 625 levels or both caption fields), not a union of different requested
+	 * services, which is no service at all.  Also for request sets that are not judged otherwise. */
 	for (i = 0; i < n; i++) {
+		int one = 0, q;
 		if (out[i].id == 0 || (out[i].id & ~requested)) {
 			fail(c, api, frame, "model:C04:unrequested-service", "record %d line %u has id 0x%x, requested set is 0x%x", i, out[i].line, out[i].id, requested);
+			return;
+		}
+		for (q = 0; q < C04_NSVC; q++)
+			if (!(out[i].id & ~c04_svc[q].family) && (out[i].id & c04_svc[q].id)) one = 1;
+		if (!one) {
+			fail(c, api, frame, "model:C04:unrequested-service", "record %d line %u has id 0x%x, which is no service but a union of several (requested set 0x%x)", i, out[i].line, out[i].id, requested);
 			return;
 		}
 	}
@@ -755,11 +764,11 @@ static int run_case(struct vf_rng *r, long idx)
 	struct cfg c;
 	struct txline tx[MAXL];
 	vbi3_raw_decoder *rd3;
-	vbi_raw_decoder rdo;
-	vbi_sliced *out;
+	vbi_raw_decoder rdo, rdr;
+	vbi_sliced *out, *out2 = NULL;
 	uint8_t *raw;
 	size_t raw_size;
-	int scan_lines, frame, ntx, n, i, nontrivial = 0;
+	int scan_lines, frame, ntx, n, i, nontrivial = 0, use_resize = 0;
 	unsigned got3, goto_, now3, nowo, removed = 0;
 	(void)idx;
 
@@ -799,6 +808,56 @@ static int run_case(struct vf_rng *r, long idx)
 	}
 	now3 = got3; nowo = goto_;
 
+	/* "any set of scan lines": the old interface can also arrive at its scan lines through
+	 * vbi_raw_decoder_resize().  A third decoder gets the geometry of the case that way - (A) resized from an
+	 * unrelated geometry before the services are added, or (B) services added under a geometry that has a few
+	 * more lines at the top of each field, then resized - and must from then on return exactly what the
+	 * decoder that was given the geometry directly returns. */
+	if (vf_chance(r, 1, 3)) {
+		int start[2]; unsigned int count[2], f, gr, gi = c.req;
+		use_resize = vf_chance(r, 1, 2) ? 1 : 2;
+		old_rd_setup(&rdr, &c);
+		start[0] = c.sp.start[0]; start[1] = c.sp.start[1];
+		count[0] = (unsigned)c.sp.count[0]; count[1] = (unsigned)c.sp.count[1];
+		if (use_resize == 1) {
+			for (f = 0; f < 2; f++) {
+				rdr.count[f] = (int)vf_below(r, 20);
+				rdr.start[f] = c.sp.start[f] > 0 ? c.sp.start[f] + (int)vf_below(r, 5) - 2 : c.sp.start[f];
+				if (rdr.start[f] < 1) rdr.start[f] = 1;
+			}
+			vf_phase("vbi_raw_decoder_resize");
+			vbi_raw_decoder_resize(&rdr, start, count);
+			vf_phase("vbi_raw_decoder_add_services");
+			gr = vbi_raw_decoder_add_services(&rdr, c.req, c.strict);
+		} else {
+			int a0 = (int)vf_below(r, 3);
+			for (f = 0; f < 2; f++) {
+				/* interlaced images have equally many lines in both fields */
+				int a = c.sp.interlaced ? a0 : (int)vf_below(r, 3), first = f ? (c.sp.scanning == 525 ? 263 : 313) : 1;
+				if (c.sp.interlaced && (rdr.start[0] - a0 <= 1 || rdr.start[1] - a0 <= (c.sp.scanning == 525 ? 263 : 313))) a = 0;
+				if (rdr.count[f] > 0 && rdr.start[f] - a > first) { rdr.start[f] -= a; rdr.count[f] += a; }
+			}
+			vf_phase("vbi_raw_decoder_add_services");
+			gi = vbi_raw_decoder_add_services(&rdr, c.req, c.strict);
+			vf_phase("vbi_raw_decoder_resize");
+			vbi_raw_decoder_resize(&rdr, start, count);
+			/* the services the decoder has now (adding nothing returns the current set; the public struct's
+			 * `services` field is not maintained by the old interface) */
+			vf_phase("vbi_raw_decoder_add_services");
+			gr = vbi_raw_decoder_add_services(&rdr, 0, c.strict);
+		}
+		vf_count(use_resize == 1 ? "old_decoders_resized_before_add" : "old_decoders_resized_after_add", 1);
+		if (c.sp.count[0] != c.sp.count[1]) vf_count("old_decoders_resized_to_unequal_field_counts", 1);
+		if (rdr.start[0] != c.sp.start[0] || rdr.start[1] != c.sp.start[1] || rdr.count[0] != c.sp.count[0] || rdr.count[1] != c.sp.count[1])
+			fail(&c, "vbi_raw_decoder", 0, "model:C04:resize-differs", "after vbi_raw_decoder_resize(start %d,%d count %d,%d) the decoder has start %d,%d count %d,%d",
+			     start[0], start[1], (int)count[0], (int)count[1], rdr.start[0], rdr.start[1], rdr.count[0], rdr.count[1]);
+		if (c.judged && goto_ == c.req && gi == c.req && gr != c.req)
+			fail(&c, "vbi_raw_decoder", 0, "model:C04:not-admitted", "decoder resized to the geometry (%s): has services 0x%x, the decoder given the geometry directly admitted 0x%x",
+			     use_resize == 1 ? "before adding services" : "after adding services under a larger geometry", gr, goto_);
+		if (gr != goto_) { vbi_raw_decoder_destroy(&rdr); use_resize = 0; }
+		else out2 = malloc(sizeof *out2 * (size_t)(scan_lines + NCANARY));
+	}
+
 	for (frame = 0; frame < 3; frame++) {
 		unsigned txs = c.req;
 		/* history: frame 1 runs with some services removed, frame 2 with them added again */
@@ -810,6 +869,7 @@ static int run_case(struct vf_rng *r, long idx)
 				now3 = vbi3_raw_decoder_remove_services(rd3, removed);
 				vf_phase("vbi_raw_decoder_remove_services");
 				nowo = vbi_raw_decoder_remove_services(&rdo, removed);
+				if (use_resize) vbi_raw_decoder_remove_services(&rdr, removed);
 				vf_count("histories_remove", 1);
 				if (c.judged && (now3 != (got3 & ~removed) || nowo != (goto_ & ~removed)))
 					fail(&c, "both", frame, "model:C04:remove-services", "after removing 0x%x: vbi3 has 0x%x, old has 0x%x, expected 0x%x", removed, now3, nowo, got3 & ~removed);
@@ -822,6 +882,7 @@ static int run_case(struct vf_rng *r, long idx)
 			now3 = vbi3_raw_decoder_add_services(rd3, removed, c.strict);
 			vf_phase("vbi_raw_decoder_add_services");
 			nowo = vbi_raw_decoder_add_services(&rdo, removed, c.strict);
+			if (use_resize) vbi_raw_decoder_add_services(&rdr, removed, c.strict);
 			vf_count("histories_readd", 1);
 			if (c.judged && (now3 != got3 || nowo != goto_))
 				fail(&c, "both", frame, "model:C04:not-admitted", "re-adding 0x%x: vbi3 has 0x%x (had 0x%x), old has 0x%x (had 0x%x)", removed, now3, got3, nowo, goto_);
@@ -862,6 +923,19 @@ static int run_case(struct vf_rng *r, long idx)
 		n = vbi_raw_decode(&rdo, raw, out);
 		vf_count("records_old", n);
 		judge(&c, "vbi_raw_decoder", frame, nowo, tx, ntx, out, n, scan_lines);
+		if (use_resize && out2) {
+			int n2, d = -1;
+			memset(out2, CANARY, sizeof *out2 * (size_t)(scan_lines + NCANARY));
+			vf_phase("vbi_raw_decode(resized)");
+			n2 = vbi_raw_decode(&rdr, raw, out2);
+			vf_count("decodes_after_resize", 1);
+			if (n2 != n) d = n2 < n ? n2 : n;
+			else for (i = 0; i < n; i++) if (out[i].id != out2[i].id || out[i].line != out2[i].line || memcmp(out[i].data, out2[i].data, sizeof out[i].data)) { d = i; break; }
+			if (d >= 0 || n2 != n)
+				fail(&c, "vbi_raw_decoder", frame, "model:C04:resize-differs", "decoder that reached the scan lines through vbi_raw_decoder_resize() (%s) returned %d records, the decoder given them directly %d; first difference at record %d (direct: line %u id 0x%x; resized: line %u id 0x%x)",
+				     use_resize == 1 ? "before adding services" : "after adding services under a larger geometry", n2, n, d,
+				     d >= 0 && d < n ? out[d].line : 0, d >= 0 && d < n ? out[d].id : 0, d >= 0 && d < n2 ? out2[d].line : 0, d >= 0 && d < n2 ? out2[d].id : 0);
+		}
 
 		/* single-line interfaces: up to two transmitted lines and one blank line */
 		if (ntx && frame != 1) {
@@ -906,6 +980,8 @@ static int run_case(struct vf_rng *r, long idx)
 	vbi3_raw_decoder_delete(rd3);
 	vf_phase("vbi_raw_decoder_destroy");
 	vbi_raw_decoder_destroy(&rdo);
+	if (use_resize) vbi_raw_decoder_destroy(&rdr);
+	free(out2);
 	free(raw);
 	free(out);
 	return nontrivial;
